@@ -106,6 +106,22 @@ def check_views(case):
             src.append(9990)
         views_agree(ih, model, 'constructed(from_index_items) after its grow-only component indices grew')
         classes.append('component-sources-grown')
+    if b['go'] and model and not any(isinstance(x, (np.datetime64, tuple)) for m in model for x in m) and len(case['steps']) % 3 == 0:
+        # a grow-only hierarchy that starts without labels: an extend it refuses must leave it as it was, and appending the labels
+        # one by one must arrive at the same views
+        e0 = lib(lambda: sf.IndexHierarchyGO.from_labels((), depth_reference=ih.depth))
+        if not isinstance(e0, Raised):
+            r0 = lib(e0.extend, sf.IndexHierarchy.from_labels(model))
+            if isinstance(r0, Raised):
+                st0 = lib(lambda: (len(e0), list(e0), tuple(model[0]) in e0))
+                if isinstance(st0, Raised) or st0[0] != 0 or st0[1] or st0[2]:
+                    raise Failure('not-all-or-nothing', 'extend refused by an empty grow-only hierarchy (%r) left it changed: %s' % (r0.exc, short(st0)))
+                for m in model:
+                    a0 = lib(e0.append, tuple(m))
+                    if isinstance(a0, Raised):
+                        raise Failure('raised:%s' % a0.cls, 'append(%r) to a hierarchy grown from empty raised %r' % (m, a0.exc), a0.where)
+            views_agree(e0, model, 'grown from an empty hierarchy')
+            classes.append('from-empty')
     frozen = []  # (static copy, model at that time)
     grown = reads_after_growth = 0
     if b['go']:
